@@ -103,7 +103,14 @@ impl JobManager {
             }
         }
 
-        let id = self.jobs.len() + 1;
+        // Use an ID one greater than the largest ID in use, so that live jobs always carry
+        // distinct IDs even after lower-numbered jobs have completed and been removed.
+        let mut id = 1;
+        for j in &self.jobs {
+            if j.id >= id {
+                id = j.id + 1;
+            }
+        }
         job.id = id;
         job.annotation = JobAnnotation::Current;
         self.jobs.push(job);
